@@ -140,3 +140,46 @@ Proof.
   assert (Hin : In (snd f) cube) by (eapply Permutation_in; [exact Pc|apply in_map_iff; exists f; split; [reflexivity|exact Hf]]).
   now rewrite (U (snd f) s Hin Hs En).
 Qed.
+
+(* ---- the spectral order in which an SED (or the cube) is stored does not matter ---- *)
+From Coq Require Import Lqa.
+Definition rev_spectral (s : sedm) : sedm :=
+  {| sd_name := sd_name s; sd_nu := rev (sd_nu s); sd_flux := map (@rev Q) (sd_flux s); sd_err := map (@rev Q) (sd_err s) |}.
+
+Lemma hd_rev_q (l : list Q) : hd 0%Q (rev l) = last l 0%Q.
+Proof.
+  induction l as [|x r IH]; [reflexivity|]. cbn [rev]. destruct r as [|y r']; [reflexivity|].
+  change (last (x :: y :: r') 0%Q) with (last (y :: r') 0%Q). rewrite <- IH. cbn [rev]. destruct (rev r'); reflexivity.
+Qed.
+Lemma last_rev_q (l : list Q) : last (rev l) 0%Q = hd 0%Q l.
+Proof. destruct l as [|x r]; [reflexivity|]. cbn [rev]. now rewrite last_last. Qed.
+
+Lemma nu_decreasing_spec (nu : list Q) : nu <> [] -> nu_decreasing nu = negb (Qle_bool (hd 0%Q nu) (last nu 0%Q)).
+Proof. destruct nu; [congruence|reflexivity]. Qed.
+
+Lemma map_rev_rev (l : list (list Q)) : map (@rev Q) (map (@rev Q) l) = l.
+Proof. rewrite map_map. rewrite <- (map_id l) at 2. apply map_ext. intros; apply rev_involutive. Qed.
+
+Theorem storage_order_irrelevant (s : sedm) : sd_nu s <> [] ->
+  (hd 0%Q (sd_nu s) < last (sd_nu s) 0%Q \/ last (sd_nu s) 0%Q < hd 0%Q (sd_nu s))%Q ->
+  read_nu_order (rev_spectral s) = read_nu_order s.
+Proof.
+  intros Hne Hord. unfold read_nu_order.
+  assert (Hne' : rev (sd_nu s) <> []) by (intros E; apply Hne; rewrite <- (rev_involutive (sd_nu s)), E; reflexivity).
+  cbn [rev_spectral sd_nu sd_name sd_flux sd_err].
+  rewrite (nu_decreasing_spec _ Hne'), (nu_decreasing_spec _ Hne), hd_rev_q, last_rev_q.
+  destruct Hord as [Inc|Dec].
+  - assert (E1 : Qle_bool (hd 0%Q (sd_nu s)) (last (sd_nu s) 0%Q) = true) by (apply Qle_bool_iff; lra).
+    assert (E2 : Qle_bool (last (sd_nu s) 0%Q) (hd 0%Q (sd_nu s)) = false).
+    { destruct (Qle_bool (last (sd_nu s) 0%Q) (hd 0%Q (sd_nu s))) eqn:E; [apply Qle_bool_iff in E; lra|reflexivity]. }
+    rewrite E1, E2. cbn [negb]. rewrite rev_involutive, !map_rev_rev. destruct s; reflexivity.
+  - assert (E1 : Qle_bool (hd 0%Q (sd_nu s)) (last (sd_nu s) 0%Q) = false).
+    { destruct (Qle_bool (hd 0%Q (sd_nu s)) (last (sd_nu s) 0%Q)) eqn:E; [apply Qle_bool_iff in E; lra|reflexivity]. }
+    assert (E2 : Qle_bool (last (sd_nu s) 0%Q) (hd 0%Q (sd_nu s)) = true) by (apply Qle_bool_iff; lra).
+    rewrite E1, E2. cbn [negb]. reflexivity.
+Qed.
+
+Corollary conv_sed_storage_order filt s : sd_nu s <> [] ->
+  (hd 0%Q (sd_nu s) < last (sd_nu s) 0%Q \/ last (sd_nu s) 0%Q < hd 0%Q (sd_nu s))%Q ->
+  conv_sed filt (rev_spectral s) = conv_sed filt s.
+Proof. intros H1 H2. unfold conv_sed. now rewrite (storage_order_irrelevant s H1 H2). Qed.
